@@ -32,7 +32,7 @@ func init() {
 				Rule: fmt.Sprintf("12 documents per format (YAML, JSON): base; without prefix_deny; without prefix_allow; users reordered; users shrunk so the guest takes the administrator's list position; administrator without commands; "+
 					"without groups and authenticator; authenticator options with a key removed; secrets shrunk and reordered; syntactically invalid; valid but no users; valid but no secrets. All sequences of length <= %d are fed to ONE loader object. "+
 					"After every load: a successful load must publish a value reflect.DeepEqual to what a freshly constructed loader publishes for the same document; every value published earlier must still equal the deep copy taken when it was published; "+
-					"a failing load must publish nothing. Each published value is also handed to a real loader.Loader behind the full server and the outcome of (a) a connection from an address only prefix_deny blocks and (b) a command authorization "+
+					"a failing load must publish nothing; when a failing document is fed before the consumer collected the previously published value, that value must still be delivered unchanged. Each published value is also handed to a real loader.Loader behind the full server and the outcome of (a) a connection from an address only prefix_deny blocks and (b) a command authorization "+
 					"only the administrator holds must be what the last good document says. distinct_nontrivial = distinct sequences with at least two different successful documents", d),
 				Assumptions: []string{"documents are produced by marshalling config values with the repository's struct tags (omitempty drops the optional keys)"}}
 		},
@@ -45,6 +45,7 @@ func init() {
 type c16Case struct {
 	Format string `json:"format"`
 	Seq    []int  `json:"documents"`
+	Lazy   int    `json:"lazy_collect_before_step,omitempty"` // 1-based index of the failing step fed before the previous value was collected
 }
 
 func c16Docs() []config.ServerConfig {
@@ -232,6 +233,37 @@ func c16Seq(c *Ctx, format string, seq []int, docs []config.ServerConfig, fresh 
 	}
 }
 
+// c16Lazy: the consumer has not yet collected the value published by step i when step i+1 (a document that fails to
+// load) is fed to the same loader: the published value must still be there afterwards ("a load that fails leaves the
+// last good configuration in force", "a configuration already published is not modified").
+func c16Lazy(c *Ctx, format string, seq []int, i int, docs []config.ServerConfig, fresh map[int]*config.ServerConfig) {
+	c.R.Eval()
+	cs := c16Case{Format: format, Seq: seq, Lazy: i + 1}
+	c.Cur(cs)
+	l := newC16Loader(format)
+	for k := 0; k < i; k++ {
+		loadOnce(l, c16Text(format, seq[k], docs))
+	}
+	if err := l.Unmarshal(c16Text(format, seq[i], docs)); err != nil {
+		return // C16's eager plane owns this
+	}
+	// the value is now sitting in the hand-off channel; feed the failing document
+	if err := l.Unmarshal(c16Text(format, seq[i+1], docs)); err == nil {
+		return // (it loaded here although it fails on a fresh loader: the eager plane reports that)
+	}
+	select {
+	case got := <-l.Config():
+		if !reflect.DeepEqual(got, *fresh[seq[i]]) {
+			c.R.ViolateMin(format+"/pending-published-modified", fmt.Sprintf("the configuration published for document %d and not yet collected was changed by the failed load of document %d: %s; %s documents %v",
+				seq[i], seq[i+1], cfgDiff(got, *fresh[seq[i]]), format, seq[:i+2]), cs, i+2)
+		}
+	default:
+		c.R.ViolateMin(format+"/pending-published-lost", fmt.Sprintf("the configuration published for document %d was still waiting to be collected when document %d failed to load, and is gone: the last good configuration is no longer in force; %s documents %v",
+			seq[i], seq[i+1], format, seq[:i+2]), cs, i+2)
+	}
+	c.R.Distinct(evid.Hash("lazy", format, fmt.Sprint(seq[:i+2])))
+}
+
 // c16Behaviour checks the two outcomes that distinguish the documents, against the document itself.
 func c16Behaviour(c *Ctx, rw *rworld, doc config.ServerConfig) string {
 	denied := len(doc.PrefixDeny) > 0
@@ -340,6 +372,11 @@ func c16Run(c *Ctx) {
 					return
 				}
 				c16Seq(c, format, seq, docs, fresh, n <= 3)
+				for i := 0; i+1 < len(seq); i++ {
+					if fresh[seq[i]] != nil && fresh[seq[i+1]] == nil {
+						c16Lazy(c, format, seq, i, docs, fresh)
+					}
+				}
 				if c.R.Evaluations%701 == 0 {
 					c.R.SampleCap(6, c16Case{Format: format, Seq: seq})
 				}
@@ -360,6 +397,10 @@ func c16Replay(c *Ctx, raw json.RawMessage) {
 		if err == nil && got != nil {
 			fresh[i] = got
 		}
+	}
+	if cs.Lazy > 0 {
+		c16Lazy(c, cs.Format, cs.Seq, cs.Lazy-1, docs, fresh)
+		return
 	}
 	c16Seq(c, cs.Format, cs.Seq, docs, fresh, true)
 }
